@@ -91,7 +91,8 @@ class CovarianceMatrix(object):
         for wfs_n in range(self.n_wfs):
             wfs_subap_pos = numpy.array(numpy.where(self.pupil_masks[wfs_n] == 1)).T * self.subap_diameters[wfs_n]
             wfs_subap_pos -= self.telescope_diameter/2.
-            wfs_subap_pos -= self.subap_diameters[wfs_n]/2.
+            # index k covers [k*d, (k+1)*d]: its centre is half a sub-aperture above the lower edge
+            wfs_subap_pos += self.subap_diameters[wfs_n]/2.
 
             self.subap_positions.append(wfs_subap_pos)
             # print("WFS {}, max position: {}m".format(wfs_n, abs(wfs_subap_pos).max()))
